@@ -251,7 +251,9 @@ func (c *Chain) Project(ctx sdk.Context) map[string]any {
 			"probeHealth": probeMtpHealth(c, pctx, m), "plainHealth": plainMtpHealth(c, pctx, m)}
 	}
 	st["perp"] = map[string]any{"pools": ppools, "mtps": mtps, "openCount": int64(a.PerpetualKeeper.GetOpenMTPCount(ctx)),
-		"safetyFactor": ds(pp.SafetyFactor), "tpFlag": pp.EnableTakeProfitCustodyLiabilities, "fixedFunding": ds(pp.FixedFundingRate)}
+		"safetyFactor": ds(pp.SafetyFactor), "tpFlag": pp.EnableTakeProfitCustodyLiabilities, "fixedFunding": ds(pp.FixedFundingRate),
+		"borrowMax": ds(pp.BorrowInterestRateMax), "borrowMin": ds(pp.BorrowInterestRateMin), "borrowInc": ds(pp.BorrowInterestRateIncrease),
+		"borrowDec": ds(pp.BorrowInterestRateDecrease), "borrowHgf": ds(pp.HealthGainFactor)}
 
 	// ---- accounted pool
 	acc := map[string]any{}
